@@ -9,7 +9,7 @@ value identities are distinct (`FreshIds`, what the generator guarantees; needed
 twice").  So a `FAIL` of `drv_mon` on an implementation line that the model's own line passes is a difference
 between the implementation and the model, never an artefact of the monitor.
 
-Per check (K1 … K10) there is a separate theorem for every reachable state.
+Per check (K1 … K11) there is a separate theorem for every reachable state.
 -/
 namespace M1
 namespace Mon
@@ -107,7 +107,7 @@ end Mon
 /-- **The monitor never rejects the model**: for every finite history (with distinct value identities), every check
 of the monitor (`checkOp` = K1 count = owners, K2 allocator / destructor event discipline, K3 no leak, K4 gate
 verdicts, K5 stored addresses, K6 union variants, K7 copy-on-write, K8 unwrapping, K9 thin ⇄ fat conversions,
-K10 uninitialised views) passes on the model's own observations. -/
+K10 uninitialised views, K11 constructors) passes on the model's own observations. -/
 theorem monitor_accepts_model (ops : List Op) (h : FreshIds ops) : Mon.checkTrace (Mon.modelTrace ops) = [] :=
   Mon.monitor_accepts_model_aux ops h
 
@@ -141,10 +141,12 @@ theorem K6_sound_run (ops : List Op) (op : Op) :
     checkK6 (observeSlots (run ops)) op (observe (run ops) op) = [] := K6_sound (inv_run ops) op
 
 /-- K7 (C08): `make_mut` / `make_unique` — a sole owner keeps its allocation without `Clone` or allocation; a shared
-handle is redirected to a fresh solely-owned allocation with one `Clone`, the old allocation loses exactly one owner
-and no other handle on it shows anything else than before; the write target shows the written value -/
+handle is redirected to a fresh solely-owned allocation with EXACTLY one `Clone`, the old allocation loses exactly one
+owner and no other handle on it shows anything else than before; the write target shows the written value (both
+unconditional: `InitInv`, `Proofs/HistInit.lean`) -/
 theorem K7_sound_run (ops : List Op) (op : Op) :
-    checkK7 (observeSlots (run ops)) op (observe (run ops) op) = [] := K7_sound (inv_run ops) (leninv_run ops) op
+    checkK7 (observeSlots (run ops)) op (observe (run ops) op) = [] :=
+  K7_sound (inv_run ops) (leninv_run ops) (initinv_run ops) op
 
 /-- K8 (C09): a granted `try_unwrap` and `into_inner` run no destructor and release the allocation; `unwrap_or_clone`
 on a sole owner neither clones nor destroys, on a shared handle clones at most once and releases one owner -/
@@ -161,6 +163,11 @@ cast -/
 theorem K10_sound_run (ops : List Op) (op : Op) :
     checkK10 (observeSlots (run ops)) op (observe (run ops) op) = [] := K10_sound (inv_run ops) (leninv_run ops) op
 
+/-- K11 (C06): a constructor that returns a handle delivers the sole owner of one fresh allocation that shows exactly the
+header and the elements handed in, in order, allocates exactly once and destroys nothing it was given -/
+theorem K11_sound_run (ops : List Op) (op : Op) :
+    checkK11 (observeSlots (run ops)) op (observe (run ops) op) = [] := K11_sound (inv_run ops) op
+
 /-- K2 + K3 (C01 / C05), with the part of the simulation they need: from a monitor state that describes `run ops`,
 the event fold reports nothing, the leak check reports nothing, and the new monitor state describes the next state -/
 theorem K23_sound (ops : List Op) (op : Op) (hf : FreshIds (ops ++ [op])) (st : MSt) (hr : Rel st (run ops)) :
@@ -170,7 +177,7 @@ theorem K23_sound (ops : List Op) (op : Op) (hf : FreshIds (ops ++ [op])) (st : 
   obtain ⟨h1, h2⟩ := checkOp_sound ops op hf st hr
   have h3 : (checkObsOnly st (observe (run ops) op)).2 = [] := by
     simp only [checkOp, List.append_eq_nil_iff] at h1
-    exact h1.1.1.1.1.1.1
+    exact h1.1.1.1.1.1.1.1
   simp only [checkObsOnly, List.append_eq_nil_iff] at h3
   exact ⟨h3.1.1.2, h3.1.2, h2⟩
 
@@ -275,9 +282,23 @@ example : checkTrace (doctorLast (fun o => { o with evs := [] })
       (modelTrace [.create 0 (.new ⟨1, 7⟩), .clone 1 0, .unwrapOrClone 1 false])) =
     [Fail.unwrapOwners "C09" 1 0] := by decide
 
-/-- the checks that are not proved sound (and not part of `checkOp`) pass on this model trace too -/
-example : unprovenChecks { MSt.init with pre := observeSlots (run (cowHistory.take 2)) } (.makeMut 1 5 false)
-    (observe (run (cowHistory.take 2)) (.makeMut 1 5 false)) = [] := by decide
+/-- a `make_mut` whose write is lost (the redirected handle still shows 7): C08 -/
+example : checkTrace (doctorLast (setVals 1 ⟨none, some [some ⟨1000000, 7⟩]⟩) (modelTrace cowHistory)) =
+    [Fail.cowLost "C08" 1 5] := by decide
+
+/-- a redirected handle that shows NO value (a never-written slot) is rejected too — the clause is unconditional -/
+example : checkTrace (doctorLast (setVals 1 ⟨none, some [none]⟩) (modelTrace cowHistory)) =
+    [Fail.cowLost "C08" 1 5] := by decide
+
+/-- a shared `make_mut` that called `Clone` twice: C08 -/
+example : checkTrace (doctorLast (fun o => { o with evs := o.evs ++ [.clone 1 1000001] }) (modelTrace cowHistory)) =
+    [Fail.cowKept "C08" 1 0] := by decide
+
+/-- `InitInv` at work: an uninitialised allocation becomes an `Arc<T>` only after its slot is written, so the clone of
+a shared `make_mut` finds a value -/
+example : checkTrace (modelTrace [.create 0 .newUninit, .writeSlot 0 0 ⟨5, 50⟩, .conv 0 .assumeInit, .clone 1 0,
+      .makeMut 1 3 false]) = [] ∧
+    (step (run [.create 0 .newUninit]) (.conv 0 .assumeInit)).2.status = "bad-op" := by decide
 
 def thinHistory : List Op := [.create 0 (.hwlFromVec ⟨9, 9⟩ 3 [⟨1, 1⟩, ⟨2, 2⟩]), .intoThin 0]
 
@@ -300,6 +321,59 @@ example : checkTrace (modelTrace [.create 0 (.hsUninit ⟨4, 40⟩ 2), .writeSlo
     ((modelTrace [.create 0 (.hsUninit ⟨4, 40⟩ 2), .writeSlot 0 0 ⟨5, 50⟩, .drop 0]).getLast?.map (·.2.evs)) =
       some [.drop 4, .dealloc 0 32 8] := by decide
 
+/-! ### K11 rejects what it is there to reject -/
+
+def vecHistory : List Op := [.create 0 (.fromVec [⟨1, 10⟩, ⟨2, 20⟩, ⟨3, 30⟩])]
+
+/-- the model: one allocation, the three elements in order, count 1 -/
+example : ((modelTrace vecHistory).getLast?.map fun x => (x.2.evs, x.2.slots.map fun e => (e.1, e.2.cnt, e.2.vals))) =
+    some ([.alloc 0 32 8], [(0, some 1, some ⟨none, some [some ⟨1, 10⟩, some ⟨2, 20⟩, some ⟨3, 30⟩]⟩)]) := by decide
+
+/-- **a constructor that delivered one element too few**: C06 -/
+example : checkTrace (doctorLast (setVals 0 ⟨none, some [some ⟨1, 10⟩, some ⟨2, 20⟩]⟩) (modelTrace vecHistory)) =
+    [Fail.ctorContents "C06" 0] := by decide
+
+/-- **elements in the wrong order**: C06 -/
+example : checkTrace (doctorLast (setVals 0 ⟨none, some [some ⟨2, 20⟩, some ⟨1, 10⟩, some ⟨3, 30⟩]⟩)
+      (modelTrace vecHistory)) = [Fail.ctorContents "C06" 0] := by decide
+
+/-- **a constructor that destroyed a value it was given** (and still shows it): C06 -/
+example : checkTrace (doctorLast (fun o => { o with evs := o.evs ++ [.drop 2] }) (modelTrace vecHistory)) =
+    [Fail.ctorEvents "C06" 0] := by decide
+
+/-- **a fresh handle that reports count 2**: C04 (one probed owner) and C06 (not the sole owner of a fresh allocation) -/
+example : checkTrace (doctorLast (fun o => { o with slots := o.slots.map fun e => (e.1, { e.2 with cnt := some 2 }) })
+      (modelTrace vecHistory)) = [Fail.countMismatch "C04" 0 0 2 1, Fail.ctorShared "C06" 0 0] := by decide
+
+/-- a "fresh" handle on an allocation another slot already owns (`new` returned a clone of slot 0): C06 -/
+example : checkTrace (doctorLast (fun o => { o with evs := [], slots :=
+      [(1, ⟨.arc, .sized, 0, 0, 1, some 2, some ⟨none, some [some ⟨5, 50⟩]⟩⟩),
+       (0, ⟨.arc, .sized, 0, 0, 1, some 2, some ⟨none, some [some ⟨1, 10⟩]⟩⟩)] })
+      (modelTrace [.create 0 (.new ⟨1, 10⟩), .create 1 (.new ⟨5, 50⟩)])) =
+    [Fail.ctorShared "C06" 1 0, Fail.ctorEvents "C06" 1] := by decide
+
+/-- a header that was swapped for another value: C06 -/
+example : checkTrace (doctorLast (setVals 0 ⟨some ⟨8, 9⟩, some [some ⟨1, 10⟩]⟩)
+      (modelTrace [.create 0 (.hsFromVec ⟨9, 9⟩ [⟨1, 10⟩])])) = [Fail.ctorContents "C06" 0] := by decide
+
+/-- an iterator-driven constructor that returns a handle holds ALL the items: an honest script is accepted, a handle that
+shows only a prefix is rejected -/
+example : checkTrace (modelTrace [.iterCtor 0 .thinFromIter (some ⟨9, 9⟩) ⟨[], [], [⟨1, 10⟩, ⟨2, 20⟩], none⟩]) = [] ∧
+    checkTrace (doctorLast (setVals 0 ⟨some ⟨9, 9⟩, some [some ⟨1, 10⟩]⟩)
+      (modelTrace [.iterCtor 0 .thinFromIter (some ⟨9, 9⟩) ⟨[], [], [⟨1, 10⟩, ⟨2, 20⟩], none⟩])) =
+      [Fail.ctorContents "C06" 0] := by decide
+
+/-- an iterator that under-reports its length: the model panics (the half-built block is the documented leak, the
+remaining items are dropped with the iterator) — nothing for K11 to check, and the trace is accepted -/
+example : checkTrace (modelTrace [.iterCtor 0 .hsFromIter (some ⟨9, 9⟩) ⟨[1], [], [⟨1, 10⟩, ⟨2, 20⟩], none⟩]) = [] ∧
+    ((modelTrace [.iterCtor 0 .hsFromIter (some ⟨9, 9⟩) ⟨[1], [], [⟨1, 10⟩, ⟨2, 20⟩], none⟩]).getLast?.map
+      fun x => (x.2.panicked, x.2.slots.length)) = some (true, 0) := by decide
+
+/-- the `new_uninit*` family: the view is `MaybeUninit` (`-`), only the header is shown -/
+example : checkTrace (modelTrace [.create 0 (.hsUninit ⟨4, 40⟩ 2), .create 1 (.newUninitSlice 3), .create 2 .newUninit]) = [] ∧
+    checkTrace (doctorLast (setVals 0 ⟨some ⟨4, 41⟩, none⟩) (modelTrace [.create 0 (.hsUninit ⟨4, 40⟩ 2)])) =
+      [Fail.ctorContents "C06" 0] := by decide
+
 #print axioms monitor_accepts_model
 #print axioms monitor_accepts_model_perm
 #print axioms K1_sound
@@ -311,6 +385,9 @@ example : checkTrace (modelTrace [.create 0 (.hsUninit ⟨4, 40⟩ 2), .writeSlo
 #print axioms K8_sound_run
 #print axioms K9_sound_run
 #print axioms K10_sound_run
+#print axioms K11_sound_run
+#print axioms initinv_run
+#print axioms init_view_written
 #print axioms step_grow
 #print axioms step_keep
 
